@@ -6,6 +6,7 @@ import contracts.common as K
 import contracts.lammps_table as LT
 import contracts.potential
 import contracts.pair_tabulation as PT
+import contracts.builders as BU
 
 F_LT, F_PT, F_POT, F_UTIL = LT.FILE, PT.FILE, K.F_POT, contracts.potential.F_UTIL
 
@@ -13,6 +14,8 @@ FUNCTIONS = [
     (F_LT, '_writeSinglePotential'), (F_LT, 'writePotentials'),
     (F_PT, 'LAMMPS_PairTabulation.write'), (F_PT, 'LAMMPS_PairTabulation.__init__'),
     (F_POT, 'Potential.__init__'), (F_UTIL, 'gradient'), (F_UTIL, 'deriv'), (F_UTIL, 'num_deriv'),
+    (BU.FILE, 'Pair_Potentials_From_Tuples_Builder.__init__'), (BU.FILE, 'Pair_Potentials_From_Tuples_Builder._create_potential'),
+    (BU.FILE, 'Pair_Potentials_From_Tuples_Builder._init_potentials'),
 ]
 SPECSEQS = [LT.rows, LT.blocks]
 
@@ -48,12 +51,20 @@ def lemmas():
     L('exactly-one-block-per-potential', [], z3.Length(LT.blocks(ps, dr, c, N, n)) == n)
     blk = LT.block(p, dr, c, N)
     L('block-header', [], z3.PrefixOf(cat(tok("%s-%s", K.pot_A(p), K.pot_B(p)), NL, tok("N %d R %.8f %.8f", N, dr, c), NL, NL), blk))
+    # potable route: block j is keyed by the labels of the j-th [Pair] tuple and tabulates the function its definition denotes
+    ts = z3.Const('ts', z3.SeqSort(BU.PPT)); b = z3.Const('b', BU.PFB)
+    L('config-route/block-j-is-for-pair-entry-j', [j >= 0, j < z3.Length(ts), z3.Length(ps) == z3.Length(ts), BU._pot_is(ps[j], ts[j], b)],
+      z3.And(z3.PrefixOf(cat(tok("%s-%s", BU.sp_a(BU.sp_of(ts[j])), BU.sp_b(BU.sp_of(ts[j]))), NL), LT.block(ps[j], dr, c, N)),
+             K.pot_fn(ps[j]) == BU.DEN(b, BU.inst_of(ts[j]))))
     # 'any mix of built-in, custom, modified ... potentials': the derivative offered by plus/product/pow/trans compositions
     # is the derivative of their energy (C07's combinator obligations, re-stated here because the force column depends on them)
     import props.C07 as C07
     return [o for o in out if o is not None] + C07.combinator_obligations('C01')
 
 MUTANTS = [
+    (BU.FILE, 'Pair_Potentials_From_Tuples_Builder._create_potential', "potrow.species.species_a, potrow.species.species_b", "potrow.species.species_b, potrow.species.species_a", 'post'),
+    (BU.FILE, 'Pair_Potentials_From_Tuples_Builder._init_potentials', "pots.append(pot)", "pots.insert(0, pot)", 'preserve/0'),
+    (BU.FILE, 'Pair_Potentials_From_Tuples_Builder._init_potentials', "raise Unknown_Modifier_Exception(msg)", "continue", 'preserve/0'),
     (F_LT, '_writeSinglePotential', "float(n - 1)", "float(n)", 'preserve/0'),
     (F_LT, '_writeSinglePotential', "range(1, gridPoints + 1)", "range(1, gridPoints)", 'post'),
     (F_LT, '_writeSinglePotential', "force = pot.force(r)", "force = pot.energy(r)", 'preserve/0'),
